@@ -519,10 +519,17 @@ def propagate_constants(index):
         for n in ast.walk(m.tree):
             if isinstance(n, ast.Attribute) and isinstance(n.ctx, (ast.Store, ast.Del)):
                 stored_attrs[n.attr] = stored_attrs.get(n.attr, 0) + 1
-    class_attr_count = {}
+    class_attr_owners = {}
     for c in index.all_classes():
         for k in c.class_attrs:
-            class_attr_count[k] = class_attr_count.get(k, 0) + 1
+            class_attr_owners.setdefault(k, []).append(c)
+
+    def unshadowed(c, k):
+        """No class related to c by inheritance binds the same name (then self.<k> inside c is c's own table)."""
+        for o in class_attr_owners.get(k, ()):
+            if o is not c and (o in index.bases_of(c) or c in index.bases_of(o)):
+                return False
+        return True
     for m in index.modules.values():
         globals_ = set(m.imports) | set(m.classes) | set(m.functions)
         for st in m.tree.body:
@@ -560,7 +567,7 @@ def propagate_constants(index):
                 continue
             consts = {}
             for k, v in c.class_attrs.items():
-                if k.startswith("_") and not k.startswith("__") and class_attr_count.get(k) == 1 and not stored_attrs.get(k) and \
+                if k.startswith("_") and not k.startswith("__") and unshadowed(c, k) and not stored_attrs.get(k) and \
                         isinstance(v, (ast.Tuple, ast.List, ast.Constant)) and not (isinstance(v, ast.Constant) and isinstance(v.value, str)) and \
                         _table_expr(v, globals_ if not star else globals_ | _names_in(v)):
                     consts[k] = v
@@ -587,50 +594,65 @@ def _names_in(e):
 
 # ---- expression helpers ---------------------------------------------------------------------------------------------------
 def open_expression_helpers(index):
-    """`X._h()` where `_h` is a *new* private method whose body is one `return <expr>` over `self` only (no parameters), and
-    whose name is defined once in the whole package: replaced by <expr> with self := X (X a plain name).  Then two
-    consequences are simplified: f(**{"a": x, "b": y}) becomes f(a=x, b=y), and {"a": x, "b": y} == {"a": u, "b": v}
-    becomes x == u and y == v.  Returns {site: helper}."""
+    """`X._h()` where `_h` is a *new* private method whose body is one `return <expr>` over `self` only (no parameters):
+    replaced by <expr> with self := X (X a plain name).  The method is the one of the enclosing class; for a receiver other
+    than `self` the enclosing function must test `isinstance(X, <that class>)` (an `__eq__`), and no class related by
+    inheritance may define another `_h`.  Then two consequences are simplified: f(**{"a": x, "b": y}) becomes f(a=x, b=y), and
+    {"a": x, "b": y} == {"a": u, "b": v} becomes x == u and y == v.  Returns {site: helper}."""
     import copy
-    defs = {}
+    helpers = {}                                        # (class site, name) -> (FuncInfo, expr)
+    by_name = {}
     for c in index.all_classes():
         for name, fs in c.methods.items():
-            defs.setdefault(name, []).extend(fs)
-    helpers = {}
-    for name, fs in defs.items():
-        if len(fs) != 1 or not name.startswith("_") or name.startswith("__"):
-            continue
-        f = fs[0]
-        if f"{f.module.rel}::{f.qual}" in _anchors() or f.decorators:
-            continue
-        a = f.node.args
-        if [x.arg for x in a.args] != ["self"] or a.vararg or a.kwarg or a.kwonlyargs:
-            continue
-        body = [s for s in f.node.body if not (isinstance(s, ast.Expr) and isinstance(s.value, ast.Constant))]
-        if len(body) != 1 or not isinstance(body[0], ast.Return) or body[0].value is None:
-            continue
-        v = body[0].value
-        if any(isinstance(n, (ast.Call, ast.Lambda, ast.Yield, ast.Await, ast.NamedExpr, ast.ListComp, ast.GeneratorExp, ast.DictComp, ast.SetComp))
-               for n in ast.walk(v)):
-            continue                                    # reads only
-        if any(isinstance(n, ast.Name) and n.id != "self" and n.id not in f.module.imports and n.id not in f.module.classes
-               for n in ast.walk(v)):
-            continue
-        helpers[name] = (f, v)
+            by_name.setdefault(name, []).append(c)
+    for c in index.all_classes():
+        for name, fs in c.methods.items():
+            if len(fs) != 1 or not name.startswith("_") or name.startswith("__"):
+                continue
+            f = fs[0]
+            if f"{f.module.rel}::{f.qual}" in _anchors() or f.decorators:
+                continue
+            if any(o is not c and (o in index.bases_of(c) or c in index.bases_of(o)) for o in by_name[name]):
+                continue                                # overridden somewhere in the family
+            a = f.node.args
+            if [x.arg for x in a.args] != ["self"] or a.vararg or a.kwarg or a.kwonlyargs:
+                continue
+            body = [s for s in f.node.body if not (isinstance(s, ast.Expr) and isinstance(s.value, ast.Constant))]
+            if len(body) != 1 or not isinstance(body[0], ast.Return) or body[0].value is None:
+                continue
+            v = body[0].value
+            pure = ("Shape.cast", "tuple", "frozenset", "int", "bool", "str", "len")
+            if any(isinstance(n, (ast.Lambda, ast.Yield, ast.Await, ast.NamedExpr, ast.ListComp, ast.GeneratorExp, ast.DictComp, ast.SetComp)) or
+                   (isinstance(n, ast.Call) and ast.unparse(n.func) not in pure) for n in ast.walk(v)):
+                continue                                # reads and value conversions only
+            if any(isinstance(n, ast.Name) and n.id != "self" and n.id not in f.module.imports and n.id not in f.module.classes and
+                   n.id not in ("Shape", "tuple", "frozenset", "int", "bool", "str", "len") for n in ast.walk(v)):
+                continue
+            helpers[(c.site, name)] = (f, v)
     done = {}
     if not helpers:
         return done
 
     class Open(ast.NodeTransformer):
-        def __init__(self, site):
-            self.site = site
+        def __init__(self, fi):
+            self.fi = fi
+            self.site = fi.site
 
         def visit_Call(self, n):
             self.generic_visit(n)
             f = n.func
-            if isinstance(f, ast.Attribute) and f.attr in helpers and isinstance(f.value, ast.Name) and not n.args and not n.keywords:
+            cls = self.fi.cls
+            if isinstance(f, ast.Attribute) and cls is not None and (cls.site, f.attr) in helpers and isinstance(f.value, ast.Name) and \
+                    not n.args and not n.keywords:
                 recv = f.value.id
-                expr = copy.deepcopy(helpers[f.attr][1])
+                if recv != "self":
+                    # another instance: the function must have established its class
+                    guarded = any(isinstance(t, ast.Call) and isinstance(t.func, ast.Name) and t.func.id == "isinstance" and len(t.args) == 2 and
+                                  isinstance(t.args[0], ast.Name) and t.args[0].id == recv and ast.unparse(t.args[1]).split(".")[-1] == cls.name
+                                  for t in ast.walk(self.fi.node))
+                    if not guarded:
+                        return n
+                expr = copy.deepcopy(helpers[(cls.site, f.attr)][1])
 
                 class S(ast.NodeTransformer):
                     def visit_Name(self, x):
@@ -645,6 +667,14 @@ def open_expression_helpers(index):
     class Simplify(ast.NodeTransformer):
         def visit_Call(self, n):
             self.generic_visit(n)
+            args = []
+            for a in n.args:
+                if isinstance(a, ast.Starred) and isinstance(a.value, (ast.Tuple, ast.List)) and \
+                        not any(isinstance(x, ast.Starred) for x in a.value.elts):
+                    args.extend(a.value.elts)
+                else:
+                    args.append(a)
+            n.args = args
             kws = []
             for k in n.keywords:
                 if k.arg is None and isinstance(k.value, ast.Dict) and k.value.keys and \
@@ -686,10 +716,10 @@ def open_expression_helpers(index):
     for m in index.modules.values():
         funcs = list(m.functions.values()) + [f for c in m.all_classes() for fs in c.methods.values() for f in fs]
         for f in funcs:
-            if f.node.name in helpers:
+            if f.cls is not None and (f.cls.site, f.node.name) in helpers:
                 continue
             before = len(done.get(f.site, ()))
-            Open(f.site).visit(f.node)
+            Open(f).visit(f.node)
             if len(done.get(f.site, ())) != before:
                 Simplify().visit(f.node)
                 ast.fix_missing_locations(f.node)
